@@ -100,16 +100,21 @@ def directiveInsert (m : Directives) (k v : Str) : Directives :=
     else m
   | none => ainsert k v m
 
-/-- parseDirectives -/
-def parseDirectives (s : Str) : Directives :=
+/-- addDirectives: the directives of one list value, inserted into a map -/
+def parseDirectivesInto (m : Directives) (s : Str) : Directives :=
   (trimmedCSV s).foldl (fun m part => match directiveOfPart part with
     | none => m
-    | some (k, v) => directiveInsert m k v) []
+    | some (k, v) => directiveInsert m k v) m
 
-/-- cacheControlValue + ParseCC…Directives; `none` models the nil map (same lookups as empty) -/
+/-- parseDirectives -/
+def parseDirectives (s : Str) : Directives := parseDirectivesInto [] s
+
+/-- ParseCC…Directives = parseDirectiveLines over the Cache-Control field lines: several lines are one
+    list, but each line is split on its own (a quoted-string cannot extend over field lines); `[]`
+    also models the nil map of a message without a (non-empty) Cache-Control field (same lookups) -/
 def parseCC (h : Header) : Directives :=
-  let v := joinWith [','] (h.values sCacheControl)
-  if v.isEmpty then [] else parseDirectives v
+  if (joinWith [','] (h.values sCacheControl)).isEmpty then []
+  else (h.values sCacheControl).foldl parseDirectivesInto []
 
 /-- parseDeltaSeconds: duration in ns -/
 def parseDeltaSeconds (s : Str) : Option Int :=
